@@ -310,11 +310,18 @@ class Checker:
             exp = [i for c in range(3) for i in members[c][(s_ or 0):e]]
             if ids is not None and ids != exp:
                 self.bad("ClasswiseSubsetWrapper", "index_slice_wrong", kw, f"expected {exp} got {ids}", "|long")
-        for p_ in (0.5, 0.2):
+        # every percent k/100: the two bounds of complementary ranges must be computed alike (float rounding of
+        # percent x count differs between float32 and float64 for some pairs, first at counts >= 50)
+        for k in range(1, 100):
+            p_ = k / 100
             a = self.get("ClasswiseSubsetWrapper", dict(end_percent=p_))
             b = self.get("ClasswiseSubsetWrapper", dict(start_percent=p_))
             if a is not None and b is not None and sorted(a + b) != list(range(n)):
-                self.bad("ClasswiseSubsetWrapper", "percent_complement_not_partition", dict(p=p_), f"{a} + {b}", "|long")
+                missing = sorted(set(range(n)) - set(a + b))
+                twice = sorted(i for i in set(a) if i in set(b))
+                self.bad("ClasswiseSubsetWrapper", "percent_complement_not_partition", dict(p=p_),
+                         f"p={p_}: samples in neither part {missing[:5]}, in both {twice[:5]}", "|long")
+                break
 
     def shuffle(self):
         n = self.n
@@ -489,6 +496,9 @@ def long_layouts(tier):
     """A few long layouts (library routines switch algorithms with the input size: e.g. sorting is insertion sort up to 16
     elements): fixed pseudo-random class sequences, plus one with unlabeled samples for the wrappers that define them."""
     out = []
+    # class counts 50..200 (sorted blocks: the order is irrelevant for counts)
+    for counts in (((100, 200, 50), (75, 150, 90)) if tier == "quick" else ((100, 200, 50), (75, 150, 90), (170, 180, 100), (58, 116, 174))):
+        out.append(tuple(c for c, k in enumerate(counts) for _ in range(k)))
     for n in ((17, 33, 100) if tier == "quick" else (17, 18, 24, 33, 64, 100, 257, 1000)):
         x, lay = 12345 + n, []
         for _ in range(n):
@@ -535,7 +545,9 @@ def run(run):
     longs = long_layouts(run.tier)
     long_methods = tuple(m for m in Checker.ALL if m not in ("class_filter_sparse", "percent_filter", "subset", "classwise_subset")) \
         + ("subset_long", "classwise_subset_long")
-    tasks += [([l], long_methods) for l in longs] + [([l], long_methods, True) for l in longs[:2]]
+    big_methods = ("classwise_subset_long", "subset_long", "sort_by_class", "oversampling", "fewshot")
+    tasks += [([l], long_methods if len(l) <= 150 else big_methods) for l in longs] + \
+             [([l], long_methods, True) for l in longs if len(l) <= 40]
     tasks.reverse()
     run.pmap(task, tasks)
     run.extra.update(long_layout_lengths=[len(l) for l in longs])
